@@ -1144,6 +1144,115 @@ def error_text_cases(ctx, model, falcon, testing, n):
                               'the XML error body', parsed=repr(parsed), fields=repr(want)), key='xml-et')
 
 
+def mutated_error_cases(ctx, model, falcon, testing, n):
+    """Error OBJECTS are mutable and reusable: the same HTTPError instance is raised in 2-3
+    consecutive requests with its fields changed in between, optionally after an early
+    to_json() / to_dict() / _to_xml() call; or a handler logs ex.to_json(), scrubs fields and
+    re-raises it.  The body must reflect the fields AT RENDER TIME (judged byte for byte by the
+    proved printers)."""
+    import random
+    import falcon.asgi
+    cur = {}
+
+    def mutate(rng, ex):
+        for field in rng.sample(['title', 'description', 'code', 'link', 'headers'], rng.randint(1, 3)):
+            if field == 'title':
+                ex.title = rng.choice([t for t in TEXTS if t])
+            elif field == 'description':
+                ex.description = rnd_opt(rng, TEXTS, 0.3)
+            elif field == 'code':
+                ex.code = rnd_opt(rng, [0, 7, 'E42', 99], 0.3)
+            elif field == 'link':
+                ex.link = None if rng.random() < 0.4 else {'text': rng.choice([t for t in TEXTS if t]),
+                                                           'href': rng.choice(HREFS), 'rel': 'help'}
+            else:
+                ex.headers = rng.choice([None, [['X-Err', 'n%d' % rng.randint(0, 9)]], {'X-New': 'v'}])
+
+    def early(ex, how):
+        if how == 1:
+            ex.to_json()
+        elif how == 2:
+            ex.to_dict()
+        elif how == 3:
+            ex._to_xml()
+
+    def build(asgi, scrub):
+        if asgi:
+            class Res:
+                async def on_get(self, req, resp):
+                    raise cur['ex']
+        else:
+            class Res:
+                def on_get(self, req, resp):
+                    raise cur['ex']
+        app = (falcon.asgi.App if asgi else falcon.App)()
+        app.add_route('/', Res())
+        if scrub:
+            def body(ex):
+                ex.to_json()                       # "logging" the original document
+                cur['scrub'](ex)
+                raise ex
+            if asgi:
+                async def h(req, resp, ex, params):
+                    body(ex)
+            else:
+                def h(req, resp, ex, params):
+                    body(ex)
+            app.add_error_handler(falcon.HTTPError, h)
+        return app
+    apps = {(a, sc): build(a, sc) for a in (0, 1) for sc in (0, 1)}
+    cases, metas = [], []
+    for k in range(n):
+        rng = random.Random(ctx.rng.getrandbits(40))
+        init_known(falcon)
+        a = gen_herr_args(rng)
+        ex = falcon.HTTPError(a.pop('status'), **a)
+        asgi, scrub = rng.randint(0, 1), int(rng.random() < 0.35)
+        app = apps[(asgi, scrub)]
+        accept = rng.choice([None, 'application/json', 'application/xml'])
+        headers = {} if accept is None else {'Accept': accept}
+        steps = []
+        for req_no in range(rng.randint(1, 3)):
+            how = rng.randint(0, 3)
+            early(ex, how)                          # an early serialization, then a mutation
+            if req_no > 0 or rng.random() < 0.7:
+                mutate(rng, ex)
+            cur['ex'] = ex
+            if scrub:
+                seed2 = rng.getrandbits(30)
+                cur['scrub'] = lambda e, seed2=seed2: mutate(random.Random(seed2), e)
+            obs = call_app(testing, app, asgi, headers=headers)
+            ncfg = negotiation_inputs(falcon, testing, app.resp_options, True, headers)
+            # the model sees the fields as they are when the response is composed
+            final = wire_exc(falcon, ex)
+            if scrub:
+                hist = [[[[class_id(falcon.HTTPError), True]], [3, 0]]]
+                scripts = [[wire_writes({'status': None, 'text': None, 'data': None, 'media': None, 'headers': []}),
+                            [1, final[1][1]]]]
+            else:
+                hist, scripts = [], []
+            cases.append([0, True, hist, scripts, ncfg, [[], []],
+                          wire_writes({'status': None, 'text': None, 'data': None, 'media': None, 'headers': []}),
+                          [final]])
+            metas.append((k, req_no, asgi, scrub, accept, how, obs, repr(ex.to_dict())))
+    outs = model.run_many(cases)
+    for (k, req_no, asgi, scrub, accept, how, obs, fields), m in zip(metas, outs):
+        ctx.count('mutated-error')
+        ctx.note_case(('muterr', k, req_no), True)
+        if m[1][0] == 0:
+            continue
+        diffs = response_diffs(m[1], obs)
+        if diffs:
+            ctx.violation('error-response-differs',
+                          {'what': 'an HTTPError instance mutated before rendering / raised again with other fields: '
+                                   'the response must reflect the fields at render time',
+                           'request_no': req_no, 'asgi': asgi, 'scrubbing_handler': scrub, 'accept': accept,
+                           'early_call': ['none', 'to_json()', 'to_dict()', '_to_xml()'][how],
+                           'fields_at_render_time': fields,
+                           'impl': {kk: (v.decode('latin-1') if isinstance(v, bytes) else v) for kk, v in obs.items()},
+                           'diffs': diffs}, key='muterr-' + diffs[0].split(':')[0])
+
+
 def registry_cases(ctx, model, falcon, n):
     """handler selection alone: _find_error_handler vs the model's dict and the history spec"""
     import random
@@ -1218,6 +1327,7 @@ def main(ctx):
                     'impl': {k: (v.decode('latin-1') if isinstance(v, bytes) else v) for k, v in obs.items()}})
     registry_cases(ctx, model, falcon, 3000 if quick else 40000)
     error_text_cases(ctx, model, falcon, testing, 1500 if quick else 15000)
+    mutated_error_cases(ctx, model, falcon, testing, 600 if quick else 6000)
     run_sessions(ctx, model, falcon, testing,
                  [(ctx.rng.getrandbits(40), ctx.rng.random() < 0.5) for _ in range(1500 if quick else 6000)])
     run_error_sequences(ctx, model, falcon, testing,
@@ -1238,7 +1348,7 @@ def replay(ctx, obj):
         check_scenarios(ctx, model, falcon, testing, [obj], None)
         ctx.note_case('replay-' + repr(sorted(obj.items())), True)
         return
-    if 'error_kwargs' in obj:
+    if 'error_kwargs' in obj or 'fields_at_render_time' in obj:
         return main(ctx)
     if 'session_seed' in obj:
         run_sessions(ctx, model, falcon, testing, [(obj['session_seed'], bool(obj.get('asgi')))])
